@@ -177,7 +177,7 @@ fn run_env(prop: &'static dyn Prop, case: &Case, env: Env) -> EnvResult {
             let maxs = rt::T_MAXSTEPS.with(|s| s.get());
             let frac = rt::T_MAXFRAC_PPM.with(|s| s.get());
             let calls = rt::T_CALLS.with(|s| s.get());
-            cx.max("max.bytes_allocated_in_one_call", rt::T_MAXBYTES.with(|s| s.get()));
+            cx.max("max.bytes_held_by_one_call", rt::T_MAXBYTES.with(|s| s.get()));
             let _ = tx.send((cx, steps, maxs, frac, calls, sched));
         })
         .expect("spawn run thread");
